@@ -117,6 +117,12 @@ func effDominates(a, b EffSite) bool {
 // with the parameters of the helpers on e's chain bound to the arguments passed down from the root function.
 func (t *Tracer) OriginsVia(e EffSite, v ssa.Value, path []string) *Origin {
 	st := &tstate{t: t, o: newOrigin(), seen: map[string]bool{}}
+	st.trace(v, path, e.Ctx())
+	return st.o
+}
+
+// Ctx: the tracer context of the function containing the site, entered from the root function along the chain.
+func (e EffSite) Ctx() *tctx {
 	var root *ssa.Function
 	if len(e.Chain) > 0 {
 		root = e.Chain[0].Caller
@@ -127,8 +133,7 @@ func (t *Tracer) OriginsVia(e EffSite, v ssa.Value, path []string) *Origin {
 	for _, s := range e.Chain {
 		c = &tctx{parent: c, fn: s.Static, call: s.Common(), depth: c.depth}
 	}
-	st.trace(v, path, c)
-	return st.o
+	return c
 }
 
 // ToRoot rewrites a value of the function containing e.Site into the root function's terms: parameters of the helpers
